@@ -657,3 +657,27 @@ Proof.
     apply (pipeline_equiv p ds n m (pipe_events p ds (Z.of_nat n) 1) x Hsafe Hds HS Hn (Forall2_schedule_refl _) Hx).
   - right. exact Hstep.
 Qed.
+
+(* ---- with the duplication rule of the pass --------------------------------------------------------------- *)
+Lemma in_dedup_op o l : In o (dedup_op l) -> In o l.
+Proof.
+  induction l as [|x r IH]; simpl; [tauto|]. destruct (existsb (operand_eqb x) r); [intros H; right; apply IH; exact H|].
+  intros [->|H]; [left; reflexivity | right; apply IH; exact H].
+Qed.
+
+Lemma dups_are_operands p ds : dups p = Some ds -> forall b, In b ds -> In (Fixed b) (all_operands p).
+Proof.
+  unfold dups. destruct (existsb _ (operands_of p)); [discriminate|]. intros E b Hb. inversion E; subst.
+  apply in_fixed_of in Hb. apply filter_In in Hb as [Hb _]. unfold operands_of in Hb. apply in_dedup_op in Hb. exact Hb.
+Qed.
+
+(* the statement for the buffers the pass itself decides to duplicate *)
+Theorem pipeline_equiv_dups : forall p ds n m ss x,
+  dups p = Some ds -> safe_pipe p ds = true ->
+  (1 <= nstages p)%nat -> (nstages p - 1 <= n)%nat ->
+  Forall2 schedule_of (pipe_events p ds (Z.of_nat n) 1) ss ->
+  ~ duprel ds x ->
+  exec (concat ss) m x = exec (concat (seq_events p 0 (Z.of_nat n) 1)) m x.
+Proof.
+  intros p ds n m ss x Hd Hsafe. apply pipeline_equiv; [exact Hsafe | apply dups_are_operands; exact Hd].
+Qed.
